@@ -511,6 +511,7 @@ fn run(a: &vhcore::Args) -> i32 {
     let mut builds_total = 0usize;
     let mut self_checked = 0usize;
     let mut cold_ms: Vec<u64> = vec![];
+    let mut f_cold_max: u64 = 0; // slowest Mode F base build = a worker's first build (std type-checked)
     let mut outcomes = vhcore::Distinct::default();
     let mut outcome_samples: BTreeMap<String, usize> = BTreeMap::new();
     let mut cases: Vec<Case> = vec![];
@@ -554,6 +555,7 @@ fn run(a: &vhcore::Args) -> i32 {
                             self_checked += 1;
                         }
                         cold_ms.push(am.millis);
+                        f_cold_max = f_cold_max.max(f.millis);
                     }
                 }
             }
@@ -565,7 +567,7 @@ fn run(a: &vhcore::Args) -> i32 {
     // A build that type-checks std from scratch takes ~4 s on an idle 16-core machine; the hang
     // threshold (120 s idle) is scaled by the slowdown measured on this run's Mode A builds.
     cold_ms.sort();
-    let cold_median = cold_ms.get(cold_ms.len() / 2).copied().unwrap_or(4000);
+    let cold_median = cold_ms.get(cold_ms.len() / 2).copied().unwrap_or(4000).max(f_cold_max);
     let slowdown = (cold_median as f64 / 4000.0).clamp(1.0, 40.0);
     // every fresh worker type-checks std first (and again after a caught panic), so the threshold
     // leaves room for that: 120 s + 3 cold builds (= 132 s on an idle machine)
